@@ -477,6 +477,46 @@ pub fn run(a: &Args) {
 			}
 			cl.key = k2;
 		}
+		// ---------------- a request whose body arrives after the session key was replaced
+		// Only the head of the request has been sent when another key exchange takes place; the body - an envelope
+		// under the key that is by then superseded - arrives afterwards. It is a request under a superseded key:
+		// answered with an error, nothing changes.
+		if let Some(k1) = cl.key {
+			rep.eval();
+			let before = state(&w.wallets[0], &scratch);
+			let n = cl.nonce();
+			let label = format!("late{}", si);
+			let env = envelope(&k1, &json!({"jsonrpc":"2.0","method":"create_account_path","params":{"token": null, "label": label},"id":4}), n, json!(4));
+			let (mut tx, body) = hyper::Body::channel();
+			let req = hyper::Request::post("http://127.0.0.1/v3/owner").body(body).unwrap();
+			let (reply, k2) = std::thread::scope(|sc| {
+				let h = &handler;
+				let t = sc.spawn(move || {
+					let resp = futures::executor::block_on(grin_api::Handler::post(h, req)).ok();
+					resp.and_then(|r| futures::executor::block_on(hyper::body::to_bytes(r.into_body())).ok()).and_then(|b| serde_json::from_slice::<Value>(&b).ok()).unwrap_or(Value::Null)
+				});
+				std::thread::sleep(std::time::Duration::from_millis(40));
+				let pk = cl.new_secret(&mut rng);
+				let init = json!({"jsonrpc":"2.0","method":"init_secure_api","params":{"ecdh_pubkey": pk},"id":1});
+				let r: Value = post(h, init.to_string().into_bytes()).ok().and_then(|b| serde_json::from_slice(&b).ok()).unwrap_or(Value::Null);
+				let k2 = r["result"]["Ok"].as_str().and_then(|their| cl.derive(their));
+				let _ = futures::executor::block_on(tx.send_data(hyper::body::Bytes::from(env.to_string().into_bytes())));
+				drop(tx);
+				(t.join().unwrap_or(Value::Null), k2)
+			});
+			let after = state(&w.wallets[0], &scratch);
+			let r = &reply["result"]["Ok"];
+			let opened_k1 = open(&k1, r["nonce"].as_str().unwrap_or(""), r["body_enc"].as_str().unwrap_or("")).is_some();
+			let case = json!({"job":"c13","kind":"body of a request arrives after the key exchange that superseded its key", "reply": trunc(&reply.to_string(), 300)});
+			if k2.is_some() && (after.dump != before.dump || opened_k1) {
+				rep.violation("C13|request-under-superseded-key-served|body-arrived-after-the-key-exchange", &format!("an envelope under the superseded key, whose body arrived after the key exchange, was executed (database changed: {}, reply opens with the old key: {})", after.dump != before.dump, opened_k1), case);
+			} else {
+				rep.count("late-body-under-superseded-key:refused");
+			}
+			if k2.is_some() {
+				cl.key = k2;
+			}
+		}
 	}
 	rep.write(&a.out);
 }
